@@ -307,6 +307,16 @@ def m_next(I, path, args, kwargs):
     return _MISSING
 
 
+def m_divmod(I, path, args, kwargs):
+    a, b = args
+    if isinstance(a, (SInt, SV)) or isinstance(b, (SInt, SV)):
+        x, y = to_int(a), to_int(b)
+        if not (isinstance(b, int) and b > 0):
+            raise Unsupported("divmod by a non-constant or non-positive divisor")
+        return (SInt(x / y), SInt(x % y))       # SMT div/mod are floor div/mod for positive divisors
+    return _MISSING
+
+
 def m_identity_decorator(I, path, args, kwargs):
     if len(args) == 1 and isinstance(args[0], (Closure, ClassVal, Stub)) and not kwargs:
         return args[0]
@@ -332,7 +342,7 @@ def install(I: Interp):
         B.len: m_len, B.isinstance: m_isinstance, B.issubclass: m_issubclass, B.enumerate: m_enumerate,
         B.zip: m_zip, B.tuple: m_tuple, B.list: m_list, B.type: m_type, B.bool: m_bool, B.any: m_any,
         B.all: m_all, B.getattr: m_getattr, B.hasattr: m_hasattr, B.dict: m_dict, B.set: m_set,
-        B.range: m_range, typing.cast: m_cast, B.repr: m_repr, B.next: m_next,
+        B.range: m_range, typing.cast: m_cast, B.repr: m_repr, B.next: m_next, B.divmod: m_divmod,
         ft.cache: m_identity_decorator, ft.lru_cache: m_identity_decorator, ft.wraps: None,
         dataclasses.dataclass: m_identity_decorator,
     }
